@@ -51,16 +51,18 @@ def _normalize_title_quotes(title: str) -> str:
 
 
 _ESCAPING_BACKSLASH_RE = re.compile(r"\\(?=[!-/:-@\[-`{-~]|\Z)")
+_ESCAPING_BACKSLASH_INNER_RE = re.compile(r"\\(?=[!-/:-@\[-`{-~])")
 
 
-def _escape_backslashes(text: str) -> str:
+def _escape_backslashes(text: str, delimiter_follows: bool = True) -> str:
     """
     Double every backslash that would be read as an escape: one followed by an ASCII
-    punctuation character, or the last character (a delimiter follows it in the output).
-    The parser removes such escapes from destinations and titles, so the backslashes it
-    hands over are all literal.
+    punctuation character, or the last character when a delimiter follows it in the output.
+    The parser removes such escapes from destinations, titles and the language word of a
+    code fence, so the backslashes it hands over are all literal.
     """
-    return _ESCAPING_BACKSLASH_RE.sub(r"\\\\", text)
+    pattern = _ESCAPING_BACKSLASH_RE if delimiter_follows else _ESCAPING_BACKSLASH_INNER_RE
+    return pattern.sub(r"\\\\", text)
 
 
 def _autolink_text(element: Any) -> str:
@@ -541,7 +543,12 @@ class MarkdownNormalizer(Renderer):
         code_content = code_child.children.removesuffix("\n")
         # The parser removes backslash escapes from the language word (not from the rest of
         # the info string): put back the ones that would be read as escapes again.
-        lang = _escape_backslashes(element.lang) if isinstance(element, block.FencedCode) else ""
+        # (A space or the end of the line follows the word, so a final backslash stays single.)
+        lang = (
+            _escape_backslashes(element.lang, delimiter_follows=False)
+            if isinstance(element, block.FencedCode)
+            else ""
+        )
         extra = element.extra if isinstance(element, block.FencedCode) else ""
         extra_text = f" {extra}" if extra else ""
         lang_text = f"{lang}{extra_text}" if lang else ""
